@@ -47,7 +47,7 @@ func ruleResumeGuard(c *Ctx) {
 				if base, ok := loadsField(cd.V, deadF); ok && !cd.Sense && vkey(base) == vkey(th) {
 					dead = true
 				}
-				if b, ok := cd.V.(*ssa.BinOp); ok && ((b.Op == token.EQL && !cd.Sense) || (b.Op == token.NEQ && cd.Sense)) {
+				if b, ok := cd.V.(*ssa.BinOp); ok && ((neHolds(b, cd)) || (b.Op == token.NEQ && cd.Sense)) {
 					_, lx := loadsField(b.X, curF)
 					_, ly := loadsField(b.Y, curF)
 					if (lx && vkey(b.Y) == vkey(th)) || (ly && vkey(b.X) == vkey(th)) {
@@ -63,7 +63,7 @@ func ruleResumeGuard(c *Ctx) {
 			normal := false
 			statusFn := p.Fn("lua", "(*LState).Status")
 			for _, cd := range g.CondsAtInstr(cl) {
-				if b, ok := cd.V.(*ssa.BinOp); ok && ((b.Op == token.EQL && !cd.Sense) || (b.Op == token.NEQ && cd.Sense)) {
+				if b, ok := cd.V.(*ssa.BinOp); ok && ((neHolds(b, cd)) || (b.Op == token.NEQ && cd.Sense)) {
 					for _, pair := range [][2]ssa.Value{{b.X, b.Y}, {b.Y, b.X}} {
 						sc, isCall := pair[0].(*ssa.Call)
 						str, isStr := constStr(pair[1])
@@ -276,7 +276,7 @@ func ruleKillArg(c *Ctx) {
 						pm, isP := b.X.(*ssa.Parameter)
 						k, isC := b.Y.(*ssa.Const)
 						if isP && isC && k.IsNil() && len(paramsOfType(fn, "*callFrame")) == 1 && pm == paramsOfType(fn, "*callFrame")[0] {
-							if (b.Op == token.NEQ && !cd.Sense) || (b.Op == token.EQL && cd.Sense) {
+							if (b.Op == token.NEQ && !cd.Sense) || (eqHolds(b, cd)) {
 								baseOnly = true
 							}
 						}
